@@ -537,7 +537,8 @@ class C09(Property):
         'of the wrong length are "invalid parameters": the statement quantifies over valid parameters, so nothing '
         'is demanded and nothing is compared there (which exception, raised when, or whether a later version '
         'accepts the call is left open)',
-        'numeric arguments are ints, bools or floats with fractional part .0 / .5 (int() truncates toward zero); '
+        'numeric arguments are ints or bools (True / False as 1 / 0); a float where an integer is expected (x.0, x.5: '
+        'today truncated by int() or rejected by islice / tee) is an invalid parameter in the above sense (round 3b); '
         'chunk sizes above sys.maxsize (rejected by itertools.islice) are not generated',
     ]
     CORRESPONDENCE_NAME = 'C09.Driver (iterutils helper models) vs boltons.iterutils functions'
@@ -1269,11 +1270,18 @@ class C09(Property):
             obs['ri'] = self.call(case, True)
         return obs
 
-    def call(self, case, iter_form):
+    def call(self, case, iter_form, limit_s=10):
         try:
-            with time_limit(10):
+            with time_limit(limit_s):
                 return {'ok': self.call_raw(case, iter_form)}
         except CaseTimeout:
+            if limit_s < 20 and not getattr(self, '_hang_confirmed', False):
+                # round 3b: the limit is wall-clock time and the machine is shared - a stalled process is not a
+                # hanging implementation.  The call is repeated once (the input object is rebuilt from the case) with
+                # twice the limit; a real endless loop times out again (and from then on no call is repeated).
+                self.stats['timeout-retried'] = self.stats.get('timeout-retried', 0) + 1
+                return self.call(case, iter_form, limit_s=20)
+            self._hang_confirmed = True
             return {'exc': 'CaseTimeout'}
         except BadValue as e:
             return {'exc': 'BadValue', 'msg': str(e)}
@@ -1577,6 +1585,12 @@ class C09(Property):
     @staticmethod
     def valid(case):
         op = case['op']
+        if any(is_float_alias(case, n) for n in (case.get('pa') or {})):
+            # round 3b: a FLOAT where an integer parameter is expected (size=2.0, maxsplit=1.5, input_size=6.5).
+            # Today most of them are accepted through int(), but the statement's laws ("every chunk has exactly
+            # size elements") say nothing for a non-integer: any judgement would need the extra assumption that the
+            # value is truncated.  A version validating with operator.index, or rounding, is as good: outside the domain.
+            return False
         if op == 'chunked':
             # a float count is rejected by itertools.islice (modelled; the property demands nothing there)
             return case['size'] >= 1 and (case['count'] is None or
